@@ -316,6 +316,15 @@ def check_other_arithmetic(ctx: Ctx):
         ctx.ok("R09.5", None, None, "package:no-other-label-arithmetic", "no arithmetic on label arrays outside the analysed encoders", None, nontrivial=False)
 
 
+def _run_rule(ctx, name, fn):
+    """a sub-rule that cannot be evaluated is recorded as undecided; the remaining rules still run"""
+    try:
+        return fn(ctx)
+    except (Undecided, AnchorMissing) as e:
+        ctx.undecided(name, None, None, f"{name}:analysis", f"{type(e).__name__}: {e}")
+        return 0
+
+
 def check(ctx: Ctx):
     from .labelenum import check_label_enumeration
 
@@ -323,15 +332,15 @@ def check(ctx: Ctx):
         check_label_enumeration(ctx)
     except (Undecided, AnchorMissing) as e:
         ctx.undecided("R09.6", None, None, "R09.6:check_label_enumeration", f"{type(e).__name__}: {e}")
-    check_codec_width(ctx)
-    check_codec_width_relational(ctx)
-    check_crop_width(ctx)
-    check_other_arithmetic(ctx)
+    _run_rule(ctx, "check_codec_width", check_codec_width)
+    _run_rule(ctx, "check_codec_width_relational", check_codec_width_relational)
+    _run_rule(ctx, "check_crop_width", check_crop_width)
+    _run_rule(ctx, "check_other_arithmetic", check_other_arithmetic)
     # delegated rule sets (same engines, same verdicts as in C04 / C05)
-    c04.check_chained_replacement(ctx)
-    c04.check_relabel(ctx)
+    _run_rule(ctx, "check_chained_replacement", c04.check_chained_replacement)
+    _run_rule(ctx, "check_relabel", c04.check_relabel)
     c05.fitting_uint_table(ctx, rule="R09.4")
-    c05.check_dispatch(ctx)
+    _run_rule(ctx, "check_dispatch", c05.check_dispatch)
     try:
         c05.check_semantic_dtype(ctx)
     except (Undecided, AnchorMissing) as e:
